@@ -6,7 +6,7 @@ STYCLS = set(v[2] for v in STY.values())
 class G:
     def __init__(s, rng, lang, restricted=False):
         from ..wikidb import siteinfo
-        s.r=rng; s.n=0; s.lang=lang; s.si=siteinfo(lang); s.restricted=restricted; s.features=set(); s.big_table_words=[]
+        s.r=rng; s.n=0; s.lang=lang; s.si=siteinfo(lang); s.restricted=restricted; s.features=set(); s.big_table_words=[]; s.tall_rows=[]
     def w(s): s.n+=1; return "wq%05dx"%s.n
     def inline(s, depth, ctx):
         r=s.r; parts=[]; words=[]
@@ -74,10 +74,23 @@ class G:
             hdr = ri==0 and s.r.random()<.5
             rowhdr = (not hdr) and ncol>1 and s.r.random()<.3   # a header cell followed by data cells in one row
             cells=[]; inl=True; marks=[]
+            # a tall cell (6-7 paragraphs): above the cleaner's page-height estimate, so the row is split into several rows
+            tallcol = s.r.randrange(ncol) if (depth==0 and ncol>=2 and not hdr and not getattr(s,"tall_done",False) and s.r.random()<.12) else None
+            rowwords=[]
             for ci in range(ncol):
                 ishdr = hdr or (rowhdr and ci==0)
                 marks.append("!" if ishdr else "|")
-                o,ws,i1=s.cellcontent(c0+("Row","Cell:h" if ishdr else "Cell:d"), depth); cells.append(o); words+=ws; inl=inl and i1
+                cctx=c0+("Row","Cell:h" if ishdr else "Cell:d")
+                if ci==tallcol:
+                    o=[]; ws=[]
+                    for pi in range(s.r.randint(6,7)):
+                        pw=[s.w() for _ in range(s.r.randint(16,20))]
+                        o+=[" ".join(pw),""]; ws+=[(w,cctx) for w in pw]
+                    o=o[:-1]; i1=False; s.tall_done=True; s.features.add("tall-cell")
+                else:
+                    o,ws,i1=s.cellcontent(cctx, depth)
+                cells.append(o); words+=ws; inl=inl and i1; rowwords+=[w for w,_ in ws]
+            if tallcol is not None: s.tall_rows.append(rowwords)
             m="!" if hdr else "|"
             if inl and not rowhdr and s.r.random()<.5:
                 out.append(m+" "+(" "+m+m+" ").join(c[0] for c in cells))
@@ -100,8 +113,8 @@ class G:
         out.append("</table>"); return out,words
     def blocks(s, ctx, n):
         out=[]; words=[]
-        kinds=[s.r.choice(["p","p","p2","l","hl","t","ht","pre","dl","dl2","ind","ll"]) for _ in range(n)]
-        LISTY=("l","dl","dl2","ind","ll")
+        kinds=[s.r.choice(["p","p","p2","l","hl","t","ht","pre","dl","dl2","ind","ll","jl"]) for _ in range(n)]
+        LISTY=("l","dl","dl2","ind","ll","jl")
         for bi,k in enumerate(kinds):
             if k=="p":
                 t,ws=s.inline(0,ctx); out.append(t); words+=ws
@@ -119,6 +132,14 @@ class G:
                 t1,w1=s.inline(2,ctx+("DT",)); t2,w2=s.inline(2,ctx+("DD",)); out+=[";"+t1, ":"+t2]; words+=w1+w2
             elif k=="ind":
                 t1,w1=s.inline(1,ctx+("DD",)); t2,w2=s.inline(1,ctx+("DD","DD")); out+=[": "+t1, ":: "+t2]; words+=w1+w2
+            elif k=="jl":
+                # a list whose first entries are written one level deeper than the following ones ('** a' / '* c')
+                k1=s.r.choice("*#"); k2=s.r.choice("*#")
+                for _ in range(s.r.randint(1,2)):
+                    t,ws=s.inline(1,ctx+("List:"+k1,"Item","List:"+k2,"Item")); out.append(k1+k2+" "+t); words+=ws
+                for _ in range(s.r.randint(1,2)):
+                    t,ws=s.inline(1,ctx+("List:"+k1,"Item")); out.append(k1+" "+t); words+=ws
+                s.features.add("jump-list")
             elif k=="ll":
                 # a list whose items are bare links only (their visible text is the link target)
                 for _ in range(s.r.randint(1,3)):
